@@ -270,6 +270,12 @@ func (uconn *UConn) SetClientRandom(r []byte) error {
 func (uconn *UConn) SetSNI(sni string) {
 	hname := hostnameInSNI(sni)
 	uconn.config.ServerName = hname
+	if uconn.config.EncryptedClientHelloConfigList != nil {
+		// With ECH the server_name extension of the (outer) ClientHello carries the
+		// public name of the ECH config: the new name only goes into the encrypted
+		// inner ClientHello, which is rebuilt from config.ServerName.
+		return
+	}
 	for _, ext := range uconn.Extensions {
 		sniExt, ok := ext.(*SNIExtension)
 		if ok {
